@@ -1,6 +1,7 @@
 import OrbitModel.Proofs.StatusMono
 import OrbitModel.Proofs.GenEqStatus
 import OrbitModel.Proofs.GenEqWrite
+import OrbitModel.Proofs.DecodeSafe
 /-!
 # C19 — replication progress never regresses and equals its maximum at rest
 
@@ -49,5 +50,21 @@ anything that can still fail (head persistence, view update): a store never hold
 does not count -/
 theorem status_raised_with_the_append_tied_to_go_text : Gen.addOperationOrder = Order.addOperation :=
   gen_addOperation_order
+
+/-- only heads written for THIS log reach the replicator (`Sync` after the `fix:` commit, finding
+F21), so nothing that will never be merged is counted in the replication status -/
+theorem foreign_heads_are_not_counted (acl : Acl) (id : Nat) (hs : List RawHead) (es : List Entry)
+    (h : syncHeads acl id hs [] = .load es) : ∀ e ∈ es, e.logId = id := by
+  intro e he
+  obtain ⟨r, _, _, hl, _, rfl⟩ := syncHeads_loads_only_own_admitted acl id hs es h e he
+  exact hl
+
+/-- Refutation witness for the tree before that repair: a head written for another log by a
+permitted writer was handed to the replicator; on the real store it raised progress and maximum
+above the number of entries (corpus/C19/f21) -/
+theorem foreign_head_was_counted_before_the_fix (e : Entry) (h : e.logId = 2) (hk : e.key = e.ident)
+    (hi : e.identOk = true) (hh : e.hashOk = true) :
+    syncHeadsLoadsForeign { wildcard := true } [{ entry := e }] [] = .load [e] ∧
+    syncHeads { wildcard := true } 1 [{ entry := e }] [] = .load [] := foreign_head_was_loaded e h hk hi hh
 
 end Orbit.C19
